@@ -129,6 +129,9 @@ pub fn strategy() -> impl Strategy<Value = Case> {
 
 #[derive(Clone, Debug, Serialize, Deserialize)]
 pub struct RunRec {
+    /// index of this run in the case's schedule list (what only_placement names)
+    #[serde(default)]
+    pub k: usize,
     pub placements: Vec<usize>,
     pub mutations: Vec<Mutation>,
     pub out: Out,
@@ -302,6 +305,7 @@ pub fn child(case: &Case) -> Report {
         }
         let (out, call, escaped, fd_problem, log, applied, _, _, plan) = run_once(&sb, case, plan, restores, false);
         rep.runs.push(RunRec {
+            k,
             placements: plan.iter().map(|(i, _)| *i).collect(),
             mutations: plan.iter().map(|(_, m)| m.clone()).collect(),
             out,
@@ -333,7 +337,8 @@ pub fn judge(case: &Case, rep: &Report, stats: &mut Stats) -> Result<(), Fail> {
     stats.class(&format!("baseline:{}", rep.baseline.class()));
     stats.count("placement_points_total", rep.placement_points as u64);
     stats.count("placements_skipped_by_work_bound", rep.skipped_placements as u64);
-    for (k, r) in rep.runs.iter().enumerate() {
+    for r in rep.runs.iter() {
+        let k = r.k;
         stats.eval();
         stats.class(&format!("attacked-outcome:{}", r.out.class()));
         for m in &r.mutations {
